@@ -30,6 +30,7 @@ Print Assumptions C08_v2_inputs_mature.
 Theorem C08_v2_contract_heights : forall vt s fc, validate_contract vt s fc = Ok tt ->
   child s <= c_proof_height fc /\ c_proof_height fc < c_exp_height fc.
 Proof. intros vt s fc Hv. destruct (contract_wellformed vt s fc Hv) as (_ & A & B & _). auto. Qed.
+Print Assumptions C08_v2_contract_heights.
 Theorem C08_v2_revision_heights : forall net vt s m e rev, validate_revision net vt s m e rev = Ok tt ->
   exists cur, child s <= c_proof_height cur /\ child s <= c_proof_height rev /\ c_proof_height rev < c_exp_height rev.
 Proof.
